@@ -37,6 +37,9 @@ def main():
     except ModuleNotFoundError:
         print(f"ANALYSIS-ERROR property={prop} no check module")
         return 2
+    except Exception as e:  # a defect of the checker itself is never reported as a property violation
+        print(f"ANALYSIS-ERROR property={prop} the check module could not be loaded: {type(e).__name__}: {e}")
+        return 2
     def attempt(program):
         """run the property's rules on one view of the program; returns (exit code, captured output, report)"""
         import contextlib
